@@ -23,7 +23,7 @@ func init() {
 		ID: "C02",
 		Rule: "per generated document: (a) random paths (from the root and from random context nodes) whose steps carry 1-3 predicates from the classes {integer in/out of range, fractional, last(), last()-k, position() op k, position() op last(), position() mod 2, boolean, string, node-set, not(), count(), nested, absolute} on forward and reverse axes after multi-node steps; (b) filter expressions (E)[p], $v[p] with $v bound in document and in reverse order, v:nodes()[p], and continuations (E)[p]/step, (E)//step, $v/step, v:nodes()//step; all compared with the reference model; " +
 			"(c) trace monitor: user function v:probe(tag, position(), last()) spliced before and after a predicate records (tag, context node identity, Context.ContextPosition(), position(), last()) and the multiset of events must equal the one the model's own probe records (per-context-node numbering in axis direction, renumbering of survivors), plus ContextPosition()+1 == position(); " +
-			"(d) library-only identities P[n]==P[position()=n], P[last()]==P[position()=last()], P[true()]==P, P[1.5]/P[0]/P[-1]/P[0 div 0]/P[1 div 0] empty. distinct_nontrivial = distinct (document shape, expression) whose expected result is a non-empty proper subset of the document or whose probe trace has >= 2 events",
+			"(e) attribute- and namespace-axis steps carrying position-independent predicates (self::name / self::* / ../self::e / ancestor::e/self::e / not() / count() / string comparisons / and-or combinations), also as the predicate of an element step; (d) library-only identities P[n]==P[position()=n], P[last()]==P[position()=last()], P[true()]==P, P[1.5]/P[0]/P[-1]/P[0 div 0]/P[1 div 0] empty. distinct_nontrivial = distinct (document shape, expression) whose expected result is a non-empty proper subset of the document or whose probe trace has >= 2 events",
 		Assumptions: []string{"predicates on '.' and '..' are not in the grammar and not generated", "positional predicates directly on the attribute and namespace axes are not generated (order within an element is implementation-dependent)"},
 		NCases:      func(tier string) int { return map[string]int{"quick": 900, "thorough": 30000}[tier] },
 		Case:        c02Case,
@@ -252,6 +252,95 @@ func c02Case(r *evid.Run, tier string, idx int, g *rng.R) {
 			r.Violate("probe/trace", map[string]any{"case": idx, "what": xast.String(p) + ": " + what, "expr": xast.String(p), "document": d.Dump(), "library_events": head(lk, 12), "spec_events": head(mk, 12)})
 		} else if len(mk) >= 2 {
 			r.Sample("probe", 2, map[string]any{"case": idx, "expr": xast.String(p), "events": head(lk, 6), "result": bridge.Show(v)})
+		}
+	}
+	// (e) position-independent predicates on attribute- and namespace-axis steps: the context of the
+	// predicate is an attribute / namespace node, and steps inside it start again with their own principal node type
+	anyName := func() xast.Test {
+		switch g.Intn(5) {
+		case 0:
+			return xast.AnyT()
+		case 1:
+			if len(attrs) > 0 {
+				a := rng.Pick(g, attrs)
+				return xast.NameT(a.Prefix, a.Local)
+			}
+		case 2:
+			return xast.NameT("", rng.Pick(g, []string{"p", "q", "xml", "id"}))
+		case 3:
+			return xast.NodeT()
+		}
+		if len(elems) > 0 {
+			e := rng.Pick(g, elems)
+			return xast.NameT(e.Prefix, e.Local)
+		}
+		return xast.AnyT()
+	}
+	elemName := func() xast.Test {
+		if len(elems) > 0 && g.P(80) {
+			e := rng.Pick(g, elems)
+			return xast.NameT(e.Prefix, e.Local)
+		}
+		return xast.AnyT()
+	}
+	dot := xast.Rel(xast.Step{Axis: "self", Test: xast.NodeT(), Abbrev: true})
+	var nonPos func(depth int) xast.Expr
+	nonPos = func(depth int) xast.Expr {
+		self := xast.Rel(xast.S("self", anyName()))
+		switch k := g.Intn(10); {
+		case k == 0:
+			return self
+		case k == 1:
+			return xast.Fn("not", self)
+		case k == 2:
+			return xast.Rel(xast.Step{Axis: "parent", Test: xast.NodeT(), Abbrev: g.Bool()}, xast.S("self", elemName()))
+		case k == 3:
+			t := elemName()
+			return xast.Rel(xast.S(rng.Pick(g, []string{"ancestor", "parent", "ancestor-or-self"}), t), xast.S("self", t))
+		case k == 4:
+			return xast.Binary{Op: "=", L: xast.Fn("count", self), R: xast.N(float64(g.Intn(2)))}
+		case k == 5:
+			return xast.Binary{Op: rng.Pick(g, []string{"=", "!="}), L: dot, R: xast.Lit{S: rng.Pick(g, cfg.StrLits)}}
+		case k == 6 && depth < 2:
+			return xast.Binary{Op: rng.Pick(g, []string{"and", "or"}), L: nonPos(depth + 1), R: nonPos(depth + 1)}
+		case k == 7:
+			return xast.Rel(xast.Step{Axis: "parent", Test: xast.NodeT(), Abbrev: true}, xast.Step{Axis: "attribute", Test: anyName(), Abbrev: g.Bool()})
+		case k == 8:
+			return xast.Fn("boolean", self)
+		}
+		return xast.Rel(xast.S("self", anyName()), xast.S("parent", elemName()))
+	}
+	for i := 0; i < n1; i++ {
+		p := gen.AbsPath(2)
+		var st xast.Step
+		if g.P(65) {
+			st = xast.Step{Axis: "attribute", Test: anyName(), Abbrev: g.Bool()}
+			if st.Test.Kind == xast.NodeT().Kind && g.Bool() {
+				st.Test = xast.AnyT()
+			}
+		} else {
+			// name tests on the namespace axis follow the library's own URI-based rule (C01) and stay out
+			st = xast.S("namespace", rng.Pick(g, []xast.Test{xast.AnyT(), xast.NodeT()}))
+		}
+		for k := g.Range(1, 2); k > 0; k-- {
+			st.Preds = append(st.Preds, nonPos(0))
+		}
+		p.Steps = append(p.Steps, st)
+		if g.P(30) {
+			p.Steps = append(p.Steps, xast.Step{Axis: "parent", Test: xast.NodeT(), Abbrev: g.Bool()})
+		}
+		var e xast.Expr = p
+		if g.P(25) {
+			// the same step as the predicate of an element step: //a[@*[self::x]]
+			q := gen.AbsPath(2)
+			lastq := &q.Steps[len(q.Steps)-1]
+			if !(lastq.Abbrev && (lastq.Axis == "self" || lastq.Axis == "parent")) && !lastq.DSlash {
+				lastq.Preds = append(lastq.Preds, xast.Rel(st))
+				e = q
+			}
+		}
+		if v, ok := w.check(r, "pred/attr-ns-step", idx, d.Root, e, false, bind...); ok {
+			note(e, v, "attr-ns-step-predicate")
 		}
 	}
 	// (d) library-only identities
